@@ -225,7 +225,11 @@ class Flow:
                 if name == "extend" and ai != 0:
                     target = self.arg_type(t, 0)
                     if is_unordered_target(target):
-                        self.notes.append(("into-unordered", target[:50], line))
+                        tt = strip_wrappers(target)
+                        if ("Map<" in tt.split("<")[0] + "<") and getattr(self, "key_prov", None) == "value-only" and self.source_is_map:
+                            self.issues.append(("extend-map-rekeyed-by-value", "keys inserted into the map are computed from the values only: equal keys collide and the survivor depends on hash order", line))
+                        else:
+                            self.notes.append(("into-unordered", target[:50], line))
                     elif is_seq_target(target):
                         tl = operand_local(t["a"][0])
                         self.follow_container(tl, line, depth)
